@@ -71,7 +71,7 @@ struct Prog {
 };
 
 // a random program exercising interrupts, timers, the ICU, idle loops, calls and hardware loops
-static Prog make_program(vh::Rng& rng, std::string& descr, bool io) {
+static Prog make_program(vh::Rng& rng, std::string& descr, bool io, int force_kind = -1) {
     Prog p;
     const u32 MAIN = 0x0100, SUB = 0x0300, VEC = 0x0400;
     p.org(0); p.br(MAIN);
@@ -169,7 +169,7 @@ static Prog make_program(vh::Rng& rng, std::string& descr, bool io) {
     p.mov_imm_sttmod(mod3, 7);
     if (rng.chance(1, 3)) p.mmio_write(0x204, 1u << 3);         // software trigger
     // body
-    unsigned kind = io ? 6 + rng.below(4) : rng.below(6);
+    unsigned kind = force_kind >= 0 ? (unsigned)force_kind : io ? 6 + rng.below(4) : rng.below(6);
     descr = "kind" + std::to_string(kind);
     switch (kind) {
     case 0: // pure idle
@@ -412,8 +412,8 @@ int main(int argc, char** argv) {
     long programs = a.n;
     for (long pi = 0; pi < programs; ++pi) {
         std::string descr;
-        bool io = a.mode == "io" || (a.mode != "loops" && rng.chance(1, 3));
-        Prog prog = a.mode == "loops" ? make_loop_program(rng, descr) : make_program(rng, descr, io);
+        bool io = a.mode == "io" || a.mode == "page" || (a.mode != "loops" && rng.chance(1, 3));
+        Prog prog = a.mode == "loops" ? make_loop_program(rng, descr) : make_program(rng, descr, io, a.mode == "page" ? 9 : -1);
         // the audio transmit period has no register (4096 cycles after reset): shorten it so that frames, the
         // empty interrupt and queue refills happen within the budget; the New line carries the value
         unsigned period[2] = {io ? (rng.chance(1, 8) ? 4096u : 2 + rng.below(60)) : 4096u, io ? 1 + rng.below(40) : 4096u};
